@@ -116,6 +116,9 @@ func (account Account) Validate() error {
 			return fmt.Errorf("base account id \"%s\" is not a valid bech32 address: %w", account.Id, err)
 		}
 	case ModuleAccount:
+		if account.Id == DistributorMainAccount {
+			return fmt.Errorf("distributor main account cannot be used as module account, use account type %s", Main)
+		}
 		if !accountExistInMacPerms(account.Id) {
 			return fmt.Errorf("module account \"%s\" doesn't exist in maccPerms", account.Id)
 		}
